@@ -28,3 +28,4 @@ pub fn all() -> Vec<PropDef> {
 pub fn find(id: &str) -> Option<PropDef> {
     all().into_iter().find(|d| d.id == id)
 }
+pub mod conc_mut;
